@@ -7,39 +7,49 @@
      PrefixInv           what the receiver has delivered is exactly the plaintext of the first
                          (next-1) records of the sender, hence a prefix of what was written
      EndIsFinal          after eof or error nothing is ever delivered again (action property)
-     EofMeansAll         eof is reported only when every byte written before Close was delivered *)
+     EofMeansAll         eof is reported only when every byte written before Close was delivered
+     SeqInv              the 8-octet sequence numbers of the accepted records are strictly increasing
+                         (no repetition within an epoch, carries included) and never pass 2^64-1   *)
 EXTENDS TLSRecord
 
-CONSTANTS MaxRec, MaxFaults, LenSet, MaxFrag
+CONSTANTS MaxRec, MaxFaults, LenSet, MaxFrag, StartSeqs       \* StartSeqs: sequence numbers the epoch may be at when the model starts
 
-VARIABLES writes, closed, net, recv, nf
-vars == <<writes, closed, net, recv, nf>>
+(* the start values used by the configuration: zero, each carry boundary, and the end of the range *)
+CarryStarts == { Zero8, <<0, 0, 0, 0, 0, 0, 0, 255>>, <<0, 0, 0, 0, 0, 0, 255, 255>>, <<0, 0, 0, 0, 255, 255, 255, 254>>,
+                 <<0, 255, 255, 255, 255, 255, 255, 255>>, <<255, 255, 255, 255, 255, 255, 255, 253>> }
+
+ZeroStart == {Zero8}
+
+VARIABLES writes, closed, net, recv, nf, start
+vars == <<writes, closed, net, recv, nf, start>>
 
 Produced == SenderRecords(writes, closed)
 FragChoices == UNION {[1..k -> LenSet] : k \in 1..MaxFrag}
 FaultSet(n) == {Fault("modify", i, 0) : i \in 1..n} \cup {Fault("drop", i, 0) : i \in 1..n}
                \cup {Fault("dup", i, j) : i \in 1..n, j \in 1..n} \cup {Fault("swap", i, j) : i \in 1..n, j \in 1..n}
 
-Init == writes = <<>> /\ closed = FALSE /\ net = <<>> /\ recv = RecvInit /\ nf = 0
+Init == writes = <<>> /\ closed = FALSE /\ net = <<>> /\ recv = RecvInit /\ nf = 0 /\ start \in StartSeqs
 
 Write(frags) ==
   /\ ~closed /\ Len(FlatSeq(writes)) + Len(frags) <= MaxRec
+  /\ Room(start, Len(FlatSeq(writes)) + Len(frags))           \* sequence numbers do not wrap: no record beyond 2^64-1
   /\ writes' = Append(writes, frags)
   /\ LET base == Len(FlatSeq(writes)) IN
      net' = net \o [i \in 1..Len(frags) |-> Rec(base + i, frags[i], FALSE)]
-  /\ UNCHANGED <<closed, recv, nf>>
+  /\ UNCHANGED <<closed, recv, nf, start>>
 Close ==
   /\ ~closed /\ closed' = TRUE
+  /\ Room(start, Len(FlatSeq(writes)) + 1)
   /\ net' = Append(net, Rec(Len(FlatSeq(writes)) + 1, 0, TRUE))
-  /\ UNCHANGED <<writes, recv, nf>>
+  /\ UNCHANGED <<writes, recv, nf, start>>
 NetFault(f) ==
   /\ nf < MaxFaults /\ Applicable(net, f)
   /\ net' = ApplyFault(net, f) /\ nf' = nf + 1
-  /\ UNCHANGED <<writes, closed, recv>>
+  /\ UNCHANGED <<writes, closed, recv, start>>
 Deliver ==
   /\ Len(net) > 0
   /\ recv' = RecvStep(recv, Head(net)) /\ net' = Tail(net)
-  /\ UNCHANGED <<writes, closed, nf>>
+  /\ UNCHANGED <<writes, closed, nf, start>>
 
 Next == \/ \E frags \in FragChoices : Write(frags)
         \/ Close
@@ -55,5 +65,8 @@ PrefixInv ==
   /\ k <= Len(AppRecords)
   /\ recv.bytes = SumLens(SubSeq(AppRecords, 1, k))
 EofMeansAll == recv.st = "eof" => closed /\ recv.bytes = SumLens(AppRecords)
+(* the 8-octet sequence numbers under which records were accepted are strictly increasing, hence
+   never repeat within the epoch - also across every carry (the start values sit on the carries) *)
+SeqInv == SeqStrictlyIncreasing(start, recv.next - 1) /\ Room(start, Len(Produced))
 EndIsFinal == [][recv.st # "ok" => recv' = recv]_vars
 =============================================================================
